@@ -28,6 +28,7 @@ type world struct {
 	ctx   context.Context
 	calls int
 	last  string
+	all   []string // every result, in call order
 }
 
 func newWorld(v *vrt.Ctx, depth int, outSize uint32) *world {
@@ -35,6 +36,7 @@ func newWorld(v *vrt.Ctx, depth int, outSize uint32) *world {
 	w.rs.Funcs["f"] = func(ctx context.Context, sym string, input []byte) (resource.Result, error) {
 		w.calls++
 		w.last = v.Opaque("result", byte('a'+w.calls), 0, maxLen)
+		w.all = append(w.all, w.last)
 		return resource.Result{Content: w.last}, nil
 	}
 	for _, n := range nodes {
@@ -171,10 +173,20 @@ func Reload(v *vrt.Ctx) {
 	w := newWorld(v, 1, 0)
 	sz := v.U32("declared-size")
 	v.Assume(sz <= 65535)
-	v.Assume(w.run(append(loadLine(sz), app.Code().Halt().Bytes()...)) == nil)
-	first := w.last
-	err := w.run(app.Code().Reload("f").Halt().Bytes())
+	var err error
+	switch v.Choice("reload-shape", 3) {
+	case 0: // LOAD, stop, RELOAD
+		v.Assume(w.run(append(loadLine(sz), app.Code().Halt().Bytes()...)) == nil)
+		err = w.run(app.Code().Reload("f").Halt().Bytes())
+	case 1: // LOAD and MAP, stop, RELOAD
+		v.Assume(w.run(append(loadLine(sz), app.Code().Map("f").Halt().Bytes()...)) == nil)
+		err = w.run(app.Code().Reload("f").Halt().Bytes())
+	case 2: // LOAD, MAP and RELOAD in one run: the page must show the reloaded value
+		err = w.run(append(loadLine(sz), app.Code().Map("f").Reload("f").Halt().Bytes()...))
+		v.Assume(len(w.all) >= 1 && (sz == 0 || len(w.all[0]) <= int(sz)))
+	}
 	v.Assert(w.calls == 2, "C05/reload-calls-the-function-once")
+	first := w.all[0]
 	second := w.last
 	v.Finding("F3-length-over-65535", len(second) > 65535)
 	v.Finding("F4-update-to-empty", len(second) == 0)
